@@ -41,7 +41,9 @@ var logOnce sync.Once
 
 // LogConfig is the extra configuration passed with every registration / reload so that the logging
 // callback of the core keeps the loggers quiet.
-var LogConfig = map[string]string{"log.level": "DPANIC"}
+// It also keeps the event ring buffer small: an application that was rejected or completed holds a state timer (days)
+// that keeps its event system alive, at the default capacity that is 800 KB per generated case until the process ends.
+var LogConfig = map[string]string{"log.level": "DPANIC", "event.ringBufferCapacity": "2000", "event.requestCapacity": "1000"}
 
 // InitLogging silences the core: a production (non development) logger, so DPanic does not panic.
 func InitLogging() {
@@ -54,7 +56,7 @@ func InitLogging() {
 			cfg.Encoding = "console"
 			if l, err := cfg.Build(); err == nil {
 				logger = l
-				LogConfig = map[string]string{"log.level": "INFO"}
+				LogConfig["log.level"] = "INFO"
 			}
 		}
 		log.InitializeLogger(logger, &cfg)
